@@ -7,7 +7,7 @@ import time
 
 from . import core, gen
 
-OPS = {"incr", "setcur", "settotal", "trigger", "refill", "abort", "getcur", "getcomp", "getab", "barwait", "cancel", "shutdown"}
+OPS = {"incr", "ewma", "setcur", "settotal", "trigger", "refill", "abort", "getcur", "getcomp", "getab", "barwait", "cancel", "shutdown"}
 
 
 def histories(traces, scen):
@@ -29,7 +29,7 @@ def histories(traces, scen):
                 pend[(e["c"], e["i"])] = e
             elif e["ev"] == "ret" and (e["c"], e["i"]) in pend:
                 i = pend.pop((e["c"], e["i"]))
-                op = "cancel" if e["op"] in ("cancel", "shutdown") else e["op"]
+                op = "cancel" if e["op"] in ("cancel", "shutdown") else ("incr" if e["op"] == "ewma" else e["op"])
                 ops.append({"op": op, "a": int(e.get("n", 0)), "f": bool(e.get("flag", False)), "inv": i["seq"], "ret": e["seq"],
                             "res": int(e.get("res", 0))})
             elif e["ev"] in ("hang", "panic", "race"):
